@@ -4,6 +4,7 @@ import itertools
 import logging
 import os
 import pickle
+import tempfile
 from enum import IntEnum
 from typing import Dict
 
@@ -214,8 +215,14 @@ def save_model(
             objects[o] = f
 
     # Output metadata
+    # Write to a temporary file first and move it into place when complete, so
+    # that a reader (or the next run after a crash) never sees a partly
+    # written cache file.
     db_file = os.path.join(model_folder, model_name + ".pymoca_cache")
-    with open(db_file, "wb") as f:
+    tmp_fd, tmp_db_file = tempfile.mkstemp(
+        dir=model_folder, prefix=model_name + ".pymoca_cache.", suffix=".tmp"
+    )
+    with open(tmp_fd, "wb") as f:
         db = {}
 
         # Store version
@@ -290,6 +297,8 @@ def save_model(
 
         pickle.dump(db, f, protocol=-1)
 
+    os.replace(tmp_db_file, db_file)
+
 
 def load_model(model_folder: str, model_name: str, compiler_options: Dict[str, str]) -> CachedModel:
     """
@@ -328,6 +337,14 @@ def load_model(model_folder: str, model_name: str, compiler_options: Dict[str, s
                 raise InvalidCacheError("Cache generated for incompatible CasADi version")
             else:
                 raise
+        except Exception as e:  # pylint: disable=broad-except
+            # Empty, truncated or otherwise unreadable file, e.g. left behind
+            # by an interrupted write. Unpickling such data can raise almost
+            # anything (EOFError, UnpicklingError, MemoryError, ...).
+            raise InvalidCacheError("Cache file is incomplete or corrupt") from e
+
+        if not isinstance(db, dict) or "version" not in db:
+            raise InvalidCacheError("Cache file is incomplete or corrupt")
 
         if db["version"] != __version__:
             raise InvalidCacheError("Cache generated for a different version of pymoca")
